@@ -8,6 +8,7 @@ def check(ctx, rep):
     gr.gr_5(ctx, rep)
     rxr.rx_7_8(ctx, rep)      # named terminals: every NUMBER / operator spelling CPython accepts is one token
     par.par_11(ctx, rep)      # the reserved-word lookup is keyed by the token text itself
+    gr.gr_7(ctx, rep)         # "same rule names": a node is named after the nonterminal it was reduced from
     par.par_13(ctx, rep)      # the engine is iterative: no interpreter frame per reduced rule
     from ..rules import eff as _eff
     _eff.eff_1(ctx, rep, only=[('parso/grammar.py', 'Grammar.parse')], minimum=20)     # no parser state outlives a parse: a valid sentence parses the same after any history
